@@ -253,7 +253,27 @@ def r_rollback_paired(ctx):
         for st, kind in U.assigns_to_attr(P, g, R.voters):
             if g.name != '__init__' and kind == 'assign' and isinstance(st.value, ast.Name):
                 restore = g
+    if restore is None:
+        # ... or, failing that, the method the loader hands a list built from the snapshot to, which touches the voter set
+        for c in P.calls_in(loader):
+            r = P.resolve_call(loader, c)
+            if r.kind == 'method' and c.args and isinstance(c.args[0], (ast.ListComp, ast.Subscript, ast.Name, ast.SetComp)):
+                for t in r.targets:
+                    if any(a.attr == R.voters and a.kind in ('write', 'mutcall', 'aug') for a in P.accesses(t)) and len(t.params) == 2:
+                        restore = t
     ctx.require(restore is not None, 'member-set restore function not found')
+    # the restore installs the given set: every normal path assigns the voter set from (a local derived from) its parameter
+    rex = U.explorer(ctx, restore)
+    rcfg = rex.cfg
+    installs = [U.node_containing(rcfg, st).id for st, kind in U.assigns_to_attr(P, restore, R.voters) if kind == 'assign' and isinstance(st.value, ast.Name)]
+    inst = 'restoring the member set makes the voter set equal to the given set'
+    ctx.tick()
+    if installs and rcfg.exit.id not in rcfg.reachable_from(rcfg.entry.id, avoid=installs, follow_exc=False):
+        ctx.ok(inst, restore.loc(), 'normal exit of %s unreachable without `self.%s = <new set>`' % (restore.qualname, R.voters))
+    else:
+        ctx.violation('%s:restore-does-not-install-the-set' % restore.qualname, restore.loc(),
+                      'the function that restores the member set from a snapshot can return without assigning the voter set from its argument: members that joined while this node '
+                      'lagged are registered with the transport but never become voters here (it computes majorities over a stale set)', instance=inst)
     rnodes = [n.id for n in lcfg.nodes if n.kind == 'stmt' and any(restore in P.resolve_call(loader, c).targets for c in ast.walk(n.ast) if isinstance(c, ast.Call))]
     for f, c, via in log_op_sites(ctx, 'clear'):
         if f is not loader:
